@@ -229,6 +229,23 @@ Definition must_panic (qs : list part) (o : nop) : bool :=
       end
   end.
 
+(** one call on the partition [q] of the copy it addresses, given the value the implementation returned *)
+Definition spec_op (q : part) (o : nop) (r : oret) : option part :=
+  match o, r with
+  | NUn _ u v, OB b =>
+      if Bool.eqb b (negb (labof q (nn u) =? labof q (nn v))) then Some (part_union q (nn u) (nn v)) else None
+  | NCheck _ u v, OB b =>
+      if Bool.eqb b (labof q (nn u) =? labof q (nn v)) then Some q else None
+  | NSize _ v, ON k =>
+      if N.eqb k (N.of_nat (class_size q (nn v))) then Some q else None
+  | NPar _ v, ON k => see_rep q (nn v) (nn k)
+  | NReset _ n, OU => Some (part_new (nn n))
+  | NClone _, OU => Some q
+  | _, _ => None
+  end.
+
+Definition is_clone (o : nop) : bool := match o with NClone _ => true | _ => false end.
+
 Fixpoint spec_run (qs : list part) (ops : list nop) (os : list obs) : option (list part) :=
   match ops, os with
   | [], [] => Some qs
@@ -240,30 +257,13 @@ Fixpoint spec_run (qs : list part) (ops : list nop) (os : list obs) : option (li
         match nth_error qs c with
         | None => None
         | Some q =>
-            let upd1 (q' : option part) :=
-              match q' with
-              | None => None
-              | Some q1 => match opt_snap q1 sn with
-                           | None => None
-                           | Some q2 => spec_run (put qs c q2) ops' os'
-                           end
-              end in
-            match o, r with
-            | NUn _ u v, OB b =>
-                if Bool.eqb b (negb (labof q (nn u) =? labof q (nn v)))
-                then upd1 (Some (part_union q (nn u) (nn v))) else None
-            | NCheck _ u v, OB b =>
-                if Bool.eqb b (labof q (nn u) =? labof q (nn v)) then upd1 (Some q) else None
-            | NSize _ v, ON k =>
-                if N.eqb k (N.of_nat (class_size q (nn v))) then upd1 (Some q) else None
-            | NPar _ v, ON k => upd1 (see_rep q (nn v) (nn k))
-            | NReset _ n, OU => upd1 (Some (part_new (nn n)))
-            | NClone _, OU =>
-                match opt_snap q sn with
+            match spec_op q o r with
+            | None => None
+            | Some q1 =>
+                match opt_snap q1 sn with
                 | None => None
-                | Some q2 => spec_run (qs ++ [q2]) ops' os'
+                | Some q2 => spec_run (if is_clone o then qs ++ [q2] else put qs c q2) ops' os'
                 end
-            | _, _ => None
             end
         end
   | _, _ => None
